@@ -33,7 +33,8 @@ def main():
         if rc != 0:
             print(log[-3000:])
             raise core.MachineryError('model driver does not build')
-        rc, log = core.run(['lake', 'build', 'BufrModel.Props.' + prop], cwd=core.LEAN, timeout=7200)
+        mods = core.prop_modules(prop)
+        rc, log = core.run(['lake', 'build'] + mods, cwd=core.LEAN, timeout=7200) if mods else (0, '')
         broken_build = None
         if rc != 0:
             ff = failing_files(log)
@@ -87,9 +88,8 @@ def main():
 
 
 def _depends_on_gen(prop):
-    p = os.path.join(core.LEAN, 'BufrModel', 'Props', prop + '.lean')
     try:
-        return 'BufrModel.Gen.' in open(p).read()
+        return any('BufrModel/Gen/' in f for f in core.import_closure(prop))
     except OSError:
         return False
 
